@@ -33,7 +33,7 @@ ASSUMPTIONS = [
 ]
 NOT_REACHED = ["figure output (--no_figure is always set)", "more than 8 files per batch", "start methods other than fork"]
 BUDGET = {"quick": dict(cases=8, seconds=70, shards=4),
-          "thorough": dict(cases=64, seconds=900, shards=16)}
+          "thorough": dict(cases=256, seconds=900, shards=16)}
 REQUIRED = ["mon:csv-equals-library-pipeline", "mon:every-file-processed-exactly-once", "task_events", "cli_runs"]
 
 HERE = os.path.dirname(os.path.dirname(os.path.dirname(os.path.abspath(__file__))))
